@@ -175,26 +175,34 @@ def run(ctx):
                 "mods": [asm.ent_json(1, "generic:M:" + name, m1), asm.ent_json(2, "generic:M:" + name, m2)],
                 "pid": 1, "pname": 2, "clash": "vector-upstream"}
         ctx.guard(check_assembly, case)
-    if ctx.tier == "thorough" and ctx.scale == 1:
+    if True:
+        # the plasmids of the bundled registries that are typed by a signature-free class (the generic structures and
+        # the kits' hand-written vectors, which are their own mirror image): a sample in the quick tier, all in thorough
         import boot
         import extract
         n = 0
+        todo = []
         for name, reg in extract.registries():
             for k in reg:
                 ent = reg[k].entity
                 cls = type(ent)
-                if getattr(cls.structure, "__func__", None) not in (boot.AbstractModule.structure.__func__,
-                                                                   boot.AbstractVector.structure.__func__):
+                if issubclass(cls, boot.AbstractPart):
                     continue
+                todo.append((name, k, ent, cls))
+        if not (ctx.tier == "thorough" and ctx.scale == 1):
+            todo = rng.sample(todo, min(len(todo), 24))
+        for name, k, ent, cls in todo:
                 wd = str(ent.record.seq)
                 site = cls.cutter.site
-                if gen.circ_count(wd, site) != 1 or gen.circ_count(wd, gen.rc(site)) != 1:
+                if gen.circ_count(wd.upper(), site) != 1 or gen.circ_count(wd.upper(), gen.rc(site)) != 1:
                     continue
                 a = T.evaluate(cls, wd)
                 b = T.evaluate(cls, gen.rc(wd))
                 if (a[0] == "valid") != (b[0] == "valid") or (a[0] == "valid" and (
                         b[1].upper() != gen.rc(a[2]).upper() or b[2].upper() != gen.rc(a[1]).upper())):
-                    ctx.fail("registry plasmid {}: strand symmetry broken".format(k), {"registry": name, "key": k})
+                    ctx.fail("registry plasmid {} typed {}: it is {} but its reverse complement is {} (overhangs {}/{} vs "
+                             "{}/{})".format(k, cls.__name__, a[0], b[0], a[1:2], a[2:3], b[1:2], b[2:3]),
+                             {"registry": name, "key": k})
                 n += 1
                 ctx.case({"registry": name, "key": k}, nontrivial=a[0] == "valid")
         ctx.note("registry-generic-plasmids", n)
@@ -205,3 +213,20 @@ def check_case(ctx, case):
         ctx.guard(check_assembly, case)
     elif "cls" in case:
         ctx.guard(check_typing, case)
+    elif "registry" in case:
+        ctx.guard(check_registry_plasmid, case)
+
+
+def check_registry_plasmid(ctx, case):
+    import extract
+    reg = dict(extract.registries())[case["registry"]]
+    ent = reg[case["key"]].entity
+    cls = type(ent)
+    wd = str(ent.record.seq)
+    a = T.evaluate(cls, wd)
+    b = T.evaluate(cls, gen.rc(wd))
+    if (a[0] == "valid") != (b[0] == "valid") or (a[0] == "valid" and (
+            b[1].upper() != gen.rc(a[2]).upper() or b[2].upper() != gen.rc(a[1]).upper())):
+        ctx.fail("registry plasmid {} typed {}: it is {} but its reverse complement is {} (overhangs {}/{} vs "
+                 "{}/{})".format(case["key"], cls.__name__, a[0], b[0], a[1:2], a[2:3], b[1:2], b[2:3]), case)
+    ctx.case(case, nontrivial=a[0] == "valid")
